@@ -354,6 +354,26 @@ func (ex *Exec) store(st *State, p Ptr, v Value) {
 
 // reinterpret handles views between same-size scalar types (e.g. *uint64 over a float64).
 func (ex *Exec) reinterpret(raw Value, view types.Type) Value {
+	if sv, isStruct := raw.(*StructV); isStruct {
+		// a struct of small integer fields read as one machine word (little endian: first field = low bits),
+		// e.g. base.Signals{Sync, Debug, Async, _ uint8} read through *uint32
+		var word *Term
+		for _, f := range sv.F {
+			ft, ok := f.(*Term)
+			if !ok || ft.Sort.K != SBV {
+				unsupported("unsafe view %s over a struct with non-integer fields", view)
+			}
+			if word == nil {
+				word = ft
+			} else {
+				word = Concat(ft, word)
+			}
+		}
+		if vs, ok := sortOf(view); ok && word != nil && vs.K == SBV && vs.W == word.Sort.W {
+			return word
+		}
+		unsupported("unsafe view %s over struct of different size", view)
+	}
 	t, ok := raw.(*Term)
 	if !ok {
 		unsupported("unsafe view %s over %T", view, raw)
